@@ -21,6 +21,7 @@ for f in sorted(glob.glob(os.path.join(ROOT, "evidence", "C*.json"))):
 table = "| ID | functions under contract (every one re-read from /repo and verified on every run) | obligations generated / discharged |\n|---|---|---|\n" + "\n".join(rows)
 p = os.path.join(ROOT, "DESIGN.md")
 s = open(p).read()
-s2 = re.sub(r"(<!-- PROOF-TABLE-BEGIN -->\n).*?(\n<!-- PROOF-TABLE-END -->)", lambda m: m.group(1) + table + m.group(2), s, flags=re.S)
+s2 = re.sub(r"(<!-- PROOF-TABLE-BEGIN -->\n)(?:.*?\n)?(<!-- PROOF-TABLE-END -->)", lambda m: m.group(1) + table + "\n" + m.group(2), s, flags=re.S)
+assert table in s2, "PROOF-TABLE markers not found in DESIGN.md"
 open(p, "w").write(s2)
 print(table)
